@@ -265,6 +265,8 @@ def variants():
         meas = Measure(kw.get("itype", "dx"), domain=m, subdomain_id=kw.get("sid", "everywhere"), metadata=kw.get("metadata"))
         if kw.get("expr", "").startswith("restricted"):
             meas = Measure("dS", domain=m, subdomain_id=kw.get("sid", "everywhere"), metadata=kw.get("metadata"))
+        if "call_degree" in kw:          # options passed to Measure.__call__ next to a caller-owned metadata dict
+            meas = Measure(kw.get("itype", "dx"), domain=m)(metadata=kw.get("metadata"), degree=kw["call_degree"])
         form = expr * meas
         for _ in range(kw.get("copies", 1) - 1):
             form = form + expr * meas            # the same integral once more (a form is the SUM of its integrals)
@@ -314,6 +316,10 @@ def variants():
     pair("metadata degree 2 vs 3", base, {"metadata": {"quadrature_degree": 2}}, {"metadata": {"quadrature_degree": 3}})
     pair("metadata key", base, {"metadata": {"quadrature_degree": 2}}, {"metadata": {"quadrature_rule": 2}})
     pair("metadata nested value", base, {"metadata": {"opts": {"a": [1, 2]}}}, {"metadata": {"opts": {"a": [1, 3]}}})
+    _shared_opts = {"quadrature_rule": "vertex"}       # ONE options dict reused for two measures that differ in the degree= keyword
+    pair("dx(metadata=opts, degree=1) vs dx(metadata=opts, degree=4) with one shared opts dict", base, {"metadata": _shared_opts, "call_degree": 1},
+         {"metadata": _shared_opts, "call_degree": 4})
+    pair("dx(metadata=opts) vs dx(metadata=opts, degree=2) with one shared opts dict", base, {"metadata": _shared_opts}, {"metadata": _shared_opts, "call_degree": 2})
     pair("metadata list order", base, {"metadata": {"pts": [1, 2]}}, {"metadata": {"pts": [2, 1]}})
     pair("metadata values exchanged between two keys (insertion order not sorted)", base, {"metadata": {"quadrature_degree": 4, "precision": 8}},
          {"metadata": {"precision": 4, "quadrature_degree": 8}})
